@@ -881,9 +881,130 @@ def sol_lit(i, c):
         nl(c["dims"]), oblit(c["ff"]), x0, shape, blit(c["inside"]), blit(c["before"]), blit(c["after"]))
 
 
+# ---- memory layouts: element-wise equal arrays must give the same result
+LAYOUTS = ("C", "F", "T", "neg0", "neg1")
+
+
+def relayout(a, how):
+    """An array element-wise equal to `a` (same shape, same values) with another memory layout."""
+    a = np.ascontiguousarray(a)
+    if how == "C" or a.ndim < 2:
+        return a
+    if how == "F":
+        b = np.asfortranarray(a)
+    elif how == "T":                                   # transposed view of a C-ordered transposed copy
+        b = np.ascontiguousarray(a.T).T
+    elif how == "neg0":                                # negative stride along the first axis
+        b = np.ascontiguousarray(a[::-1])[::-1]
+    else:                                              # negative stride along the last axis
+        b = np.ascontiguousarray(a[..., ::-1])[..., ::-1]
+    assert b.shape == a.shape and np.array_equal(a, b)
+    return b
+
+
+def _fake_solver(A, b, x0=None):
+    x = np.asarray(A.rmatvec(b)) + (0 if x0 is None else 3 * x0)
+    return (x, 0)
+
+
+def solver_setups():
+    """name -> (operator builder, solver builder(kwargs) ) for the decorated entry points"""
+    import pylops
+    from pylops.optimization.basic import cg, cgls, lsqr
+    from pylops.utils.decorators import add_ndarray_support_to_solver
+    fake = add_ndarray_support_to_solver(_fake_solver)
+    spd = lambda: pylops.Diagonal((2.0 + np.abs(zoo.ivec("c04spd", 12))).reshape(3, 4))
+    wide = lambda: pylops.Restriction((4, 5), [0, 2, 3], axis=1)
+    tall = lambda: pylops.VStack([pylops.FirstDerivative((4, 3), axis=0, kind="forward"), pylops.Diagonal(1.0 + np.abs(zoo.ivec("c04tall", 12)).reshape(4, 3))])
+    sm = lambda: pylops.Sum((3, 4, 2), axis=1)
+    tr = lambda: pylops.Transpose((2, 3, 4), (2, 0, 1))
+    S = {
+        "cg/spd": (spd, lambda A, y, x0: cg(A, y, x0=x0, niter=2)),
+        "cgls/wide": (wide, lambda A, y, x0: cgls(A, y, x0=x0, niter=2, damp=0.5)),
+        "cgls/tall": (tall, lambda A, y, x0: cgls(A, y, x0=x0, niter=3, damp=0.0)),
+        "lsqr/wide-damp": (wide, lambda A, y, x0: lsqr(A, y, x0=x0, niter=3, damp=0.7)),
+        "lsqr/sum3d-damp": (sm, lambda A, y, x0: lsqr(A, y, x0=x0, niter=3, damp=0.3)),
+        "lsqr/transpose3d": (tr, lambda A, y, x0: lsqr(A, y, x0=x0, niter=2, damp=0.5)),
+        "fake/wide": (wide, lambda A, y, x0: fake(A, y, x0=x0)),
+        "fake/sum3d": (sm, lambda A, y, x0: fake(A, y, x0=x0)),
+        "fake/transpose3d": (tr, lambda A, y, x0: fake(A, y, x0=x0)),
+    }
+    try:
+        from pylops.optimization.sparsity import spgl1
+        import spgl1 as _sp  # noqa: F401
+        S["spgl1/wide"] = (wide, lambda A, y, x0: spgl1(A, y, x0=x0, iter_lim=3))
+    except Exception:
+        pass
+    return S
+
+
+def run_solver_layout(name, ylay, x0lay):
+    """(result of the N-d call with the given layouts).ravel(), result of the flat call"""
+    import pylops
+    mkop, solve = solver_setups()[name]
+    A = mkop()
+    y = zoo.ivec(("c04sy", name), A.shape[0]).reshape(A.dimsd)
+    x0 = zoo.ivec(("c04sx0", name), A.shape[1]).reshape(A.dims)
+    try:
+        ref = np.asarray(solve(A, y.ravel().copy(), x0.ravel().copy())[0]).ravel()
+        got = np.asarray(solve(A, relayout(y, ylay), relayout(x0, x0lay))[0])
+        assert pylops.get_ndarray_multiplication() is True
+    finally:
+        pylops.set_ndarray_multiplication(True)
+    return got, ref, tuple(A.dims)
+
+
+def layout_cases(opspecs, tier):
+    out = []
+    combos = [("C", "C"), ("F", "C"), ("T", "C"), ("C", "F"), ("C", "T"), ("F", "F"), ("T", "T"), ("neg0", "C"), ("neg1", "C"), ("C", "neg0"), ("C", "neg1")]
+    for name in solver_setups():
+        for ylay, x0lay in combos:
+            got, ref, dims = run_solver_layout(name, ylay, x0lay)
+            ok_shape = tuple(got.shape) == dims
+            out.append({"what": "solver", "name": name, "ylay": ylay, "x0lay": x0lay, "M": len(ref),
+                        "got": got.ravel() if ok_shape else np.zeros(0), "cols": [ref]})
+    # operators: Op @ X with X (dims / dims+(k,)) in another memory layout = C-ordered result
+    n = 0
+    for spec in opspecs:
+        op = build(spec)
+        a = attrs_of(op)
+        if len(a["dims"]) < 2 or a["ff"] is True or a["shape"][0] > 200 or a["shape"][1] > 200:
+            continue
+        n += 1
+        if tier == "quick" and n % 2:
+            continue
+        key = json.dumps(spec, sort_keys=True)
+        for shp in (tuple(a["dims"]), tuple(a["dims"]) + (2,)):
+            X = mkinput(op, shp, key + "lay")
+            cls, _, _, ref = apply_dot(op, X, True)
+            if cls != "ok":
+                continue
+            for lay in ("F", "T", "neg1") if len(shp) == len(a["dims"]) else ("F", "T"):
+                cls2, _, shp2, y2 = apply_dot(op, relayout(X, lay), True)
+                good = cls2 == "ok" and tuple(shp2) == tuple(ref.shape)
+                out.append({"what": "op", "spec": spec, "xs": list(shp), "lay": lay, "M": ref.size,
+                            "got": y2.ravel() if good else np.zeros(0), "cols": [ref.ravel()]})
+    return out
+
+
+def replay_layout(rp):
+    if rp["what_case"] == "solver":
+        got, ref, dims = run_solver_layout(rp["name"], rp["ylay"], rp["x0lay"])
+        print("solver", rp["name"], "y layout", rp["ylay"], "x0 layout", rp["x0lay"], "-> result shape", got.shape, "expected", dims)
+        d = 1.0 if got.size != ref.size else float(np.abs(got.ravel() - ref).max(initial=0) / (1 + np.abs(ref).max(initial=0)))
+    else:
+        op = build(rp["spec"])
+        X = mkinput(op, tuple(rp["xs"]), json.dumps(rp["spec"], sort_keys=True) + "lay")
+        ref = apply_dot(op, X, True)[3]
+        cls, _, _, y = apply_dot(op, relayout(X, rp["lay"]), True)
+        d = 1.0 if (cls != "ok" or y.shape != ref.shape) else float(np.abs(y - ref).max(initial=0) / (1 + np.abs(ref).max(initial=0)))
+    print("max relative difference between the call on the re-laid-out (element-wise equal) array and the reference call:", d)
+    return d > 1e-12
+
+
 # ------------------------------------------------------------------ coq evaluation
 HEADER = ("From Coq Require Import QArith Qcanon List.\nFrom PV Require Import Check GaussQc ConfigFlag DotDispatch CheckC04.\n"
-          "Import ListNotations.\nLocal Open Scope nat_scope.\n")
+          "Import ListNotations.\nLocal Open Scope nat_scope.\nDefinition tol12 : Qc := (q 1 1000000000000).\n")
 
 
 def coq_eval(groups, tol):
@@ -891,8 +1012,8 @@ def coq_eval(groups, tol):
     d = common.workdir(PID)
     TY = {"flag": ("flagcase", "f_id", "check_flag"), "dot": ("dotcase", "d_id", "check_dot"), "mv": ("mvcase", "m_id", "check_mv"),
           "attr": ("attrcase", "t_id", "check_attr"), "set": ("setcase", "s_id", "check_set"), "sol": ("solcase", "w_id", "check_sol"),
-          "val": ("valcase", "v_id", "(check_val tol)")}
-    per = {"flag": 1200, "dot": 900, "mv": 1500, "attr": 600, "set": 800, "sol": 800, "val": 60}
+          "val": ("valcase", "v_id", "(check_val tol)"), "lay": ("valcase", "v_id", "(check_val tol12)")}
+    per = {"flag": 1200, "dot": 900, "mv": 1500, "attr": 600, "set": 800, "sol": 800, "val": 60, "lay": 80}
     names = []
     back = {}
     for kind, items in groups.items():
@@ -957,6 +1078,8 @@ def replay(rp):
         op = build(rp["spec"])
         x = rp["tag"] if rp.get("call", "").startswith("richer:") else mkinput(op, tuple(rp["xs"]), rp["tag"])
         bad = value_defect(op, x, rp["flag"], rp.get("call", "dot")) > 1e-9
+    elif k == "lay":
+        bad = replay_layout(rp)
     elif k == "set":
         res = run_setters(rp["ops"])
         print("setter sequence", rp["ops"], "->", res)
@@ -1060,12 +1183,13 @@ def main(tier):
     sc = setter_cases()
     leaves_for_solver = [o["spec"] for o in G["ops"] if "attrs" in o and "expr" not in o["spec"]]
     solc = solver_cases(leaves_for_solver[::3] + [o["spec"] for o in G["ops"] if "extra" in o["spec"]])
+    layc = layout_cases(leaves_for_solver, tier)
     assert pylops.get_ndarray_multiplication() is True
     t_py = time.time() - t0
 
     # ---- ids and literals
     allc = []          # id -> (kind, case)
-    groups = {k: [] for k in ("flag", "dot", "mv", "attr", "set", "sol", "val")}
+    groups = {k: [] for k in ("flag", "dot", "mv", "attr", "set", "sol", "val", "lay")}
 
     def add(kind, c, lit_fn):
         i = len(allc)
@@ -1093,6 +1217,10 @@ def main(tier):
     for c in G["val"]:
         add("val", c, lambda i, c: "{| v_id := @ID@; v_M := %d; v_got := %s; v_cols := [%s]; v_kg := %d; v_kc := %d |}" % (
             c["M"], glist(c["got"]), ";\n  ".join(glist(col) for col in c["cols"]), c.get("kg", 0), c.get("kc", 0)))
+    vlit = lambda i, c: "{| v_id := @ID@; v_M := %d; v_got := %s; v_cols := [%s]; v_kg := %d; v_kc := %d |}" % (
+        c["M"], glist(c["got"]), ";\n  ".join(glist(col) for col in c["cols"]), c.get("kg", 0), c.get("kc", 0))
+    for c in layc:
+        add("lay", c, vlit)
     # ---- canaries: one deliberately wrong case per main kind; all must come back
     can = {}
     p = ("wd", ("seq", ("obs",), ("raise",)))
@@ -1102,6 +1230,7 @@ def main(tier):
     can["attr"] = add("attr", {}, lambda i, c: "{| t_id := @ID@; t_kind := 1; t_a := (mkattrs 4 6 [2; 3] [4] None); t_b := (mkattrs 4 6 [2; 3] [4] None); t_res := (Some (mkattrs 6 4 [2; 3] [4] None)) |}")
     can["val"] = add("val", {}, lambda i, c: "{| v_id := @ID@; v_M := 2; v_got := [((qz 1), z0); ((qz 2), z0); ((qz 3), z0); ((qz 5), z0)]; v_cols := [[((qz 1), z0); ((qz 3), z0)]; [((qz 2), z0); ((qz 4), z0)]]; v_kg := 0; v_kc := 0 |}")
     can["val2"] = add("val", {}, lambda i, c: "{| v_id := @ID@; v_M := 1; v_got := [((qz 1), z0)]; v_cols := [[((qz 1), z0)]]; v_kg := 1; v_kc := 3 |}")
+    can["lay"] = add("lay", {}, lambda i, c: "{| v_id := @ID@; v_M := 2; v_got := [((qz 2), z0); ((qz 1), z0)]; v_cols := [[((qz 1), z0); ((qz 2), z0)]]; v_kg := 0; v_kc := 0 |}")
     can["set"] = add("set", {}, lambda i, c: "{| s_id := @ID@; s_ops := [(SShape 3 4); (SDims [5])]; s_res := (Some (Some (mkattrs 3 4 [5] [3] None))) |}")
     can["sol"] = add("sol", {}, lambda i, c: "{| w_id := @ID@; w_dims := [2; 3]; w_ff := None; w_x0 := None; w_shape := [6]; w_inside := false; w_before := true; w_after := true |}")
 
@@ -1195,6 +1324,15 @@ def main(tier):
             rp = {"kind": "sol", "spec": c["spec"], "case": c, "coq_codes": cd}
             R.violation("solver N-d wrapper: %s x0=%s -> result shape %s, flag inside=%s (or non-flat b/x0 passed), before=%s after=%s (solver raised: %s)"
                         % (json.dumps(c["spec"])[:160], c["x0"], c["shape"], c["inside"], c["before"], c["after"], c["boom"]), rp)
+        elif kind == "lay":
+            if c["what"] == "solver":
+                rp = {"kind": "lay", "what_case": "solver", "name": c["name"], "ylay": c["ylay"], "x0lay": c["x0lay"]}
+                R.violation("solver N-d wrapper is memory-layout dependent: %s with y in layout %s and x0 in layout %s (element-wise equal to the C-ordered arrays) "
+                            "differs from the flat call" % (c["name"], c["ylay"], c["x0lay"]), rp)
+            else:
+                rp = {"kind": "lay", "what_case": "op", "spec": c["spec"], "xs": c["xs"], "lay": c["lay"]}
+                R.violation("Op @ X is memory-layout dependent: %s on X of shape %s in layout %s differs from the C-ordered call"
+                            % (json.dumps(c["spec"])[:160], c["xs"], c["lay"]), rp)
         elif kind == "val":
             how = c["what"] if c["what"].startswith("richer:") else "H" if c["what"].startswith("Op.H") else (c["what"].split()[0] if c["what"].split()[0] in ("matmat", "rmatmat") else "dot")
             key = json.dumps(c["spec"], sort_keys=True) + {"dot": "", "H": "H", "matmat": "mv", "rmatmat": "mv"}.get(how, "rich")
@@ -1224,6 +1362,8 @@ def main(tier):
             nontriv.add(("dot", json.dumps(c["spec"], sort_keys=True), tuple(c["xs"]), c["flag"]))
         elif kind == "val" and c and np.abs(np.asarray(c["got"])).max(initial=0) > 0:
             nontriv.add(("val", json.dumps(c["spec"], sort_keys=True), c["what"]))
+        elif kind == "lay" and (c.get("lay") or (c.get("ylay"), c.get("x0lay")) != ("C", "C")) and np.abs(np.asarray(c["got"])).max(initial=0) > 0:
+            nontriv.add(("lay", c.get("name") or json.dumps(c["spec"], sort_keys=True), c.get("lay"), c.get("ylay"), c.get("x0lay"), tuple(c.get("xs", []))))
         elif kind == "attr" and c and c["kind"] > 0:
             nontriv.add(("attr", json.dumps(c["spec"], sort_keys=True)))
     fams = sorted(set((o["spec"].get("zoo") or [o["spec"].get("extra") or o["spec"]["expr"][0]])[0] for o in G["ops"]))
@@ -1236,7 +1376,8 @@ def main(tier):
              "dot: per operator every layout {flat, dims, dims+(k,), (N,1), (N,k), +-1 sizes, reversed/swapped/merged dims, leading axis, dimsd-shaped, (1,N), (2,N)} x both flag values; "
              "non-trivial = flag program containing a context manager / dot case with N-d input or a rejected input / value case with non-zero output / attribute case of a compound; distinct by (operator spec, input shape, flag)",
         exhaustive_flag_depth=3, flag_cases=len(groups["flag"]) - 1, dot_cases=len(G["dot"]), mv_cases=len(G["mv"]), attr_cases=len(G["attr"]),
-        setter_cases=len(sc), solver_cases=len(solc), value_cases=len(G["val"]),
+        setter_cases=len(sc), solver_cases=len(solc), value_cases=len(G["val"]), layout_cases=len(layc),
+        layout_solvers=sorted(solver_setups()),
         operators=len([o for o in G["ops"] if "attrs" in o]), operators_dims_ne_dimsd=nd_ne, families=fams,
         dot_outcomes={k: sum(1 for c in G["dot"] if c["cls"].split(":")[0] == k) for k in ("ok", "ValueError", "Other")},
         forceflat={str(k): sum(1 for o in G["ops"] if "attrs" in o and o["attrs"]["ff"] is k) for k in (None, True, False)},
